@@ -249,7 +249,7 @@ func runWorkerBin(b *builder, bin, prop, tier string, base uint64, idxs []int, w
 			res.infra = "start worker: " + err.Error()
 			return res
 		}
-		// watchdog: a run that produces no line within 120 s is killed
+		// watchdog: a run that produces no line within 600 s is killed (the heaviest plans, 65534 registrations, take ~1 min alone)
 		lineCh := make(chan string, 256)
 		go func() {
 			sc := bufio.NewScanner(stdout)
@@ -290,7 +290,7 @@ func runWorkerBin(b *builder, bin, prop, tier string, base uint64, idxs []int, w
 				case l == "WORKER-YIELD":
 					yielded = true
 				}
-			case <-time.After(120 * time.Second):
+			case <-time.After(600 * time.Second):
 				hung = true
 				cmd.Process.Kill()
 				break loop
@@ -301,7 +301,7 @@ func runWorkerBin(b *builder, bin, prop, tier string, base uint64, idxs []int, w
 			return res
 		}
 		if hung {
-			res.infra = fmt.Sprintf("watchdog: worker %d produced nothing for 120 s (idx %d)", wid, cur)
+			res.infra = fmt.Sprintf("watchdog: worker %d produced nothing for 600 s (idx %d)", wid, cur)
 			return res
 		}
 		if yielded {
